@@ -143,3 +143,86 @@ def _(E, meth):
     E.set(arc, "end", E.new("Point", x=sp.x, y=sp.y))
     E.set(arc, "sweep", 0)
     E.ensure("zero_extent_yields_no_curves", len(E.items(E.call(arc, meth))) == 0)
+
+
+# --------------------------------------------------------------------------------------------------
+# C15 / C16 histories: the cached lengths (Shape._length, Shape._lengths) never outlive the geometry they describe
+# --------------------------------------------------------------------------------------------------
+MUTATORS = ["append", "insert", "extend", "setitem", "delitem", "iadd", "line", "closed", "reverse", "reify",
+            "subpath_reverse", "subpath_imul"]
+
+
+@family("C15/Path.edit/cached_lengths_do_not_outlive_the_geometry", MUTATORS,
+        funcs=["Path.append", "Path.insert", "Path.extend", "Path.__setitem__", "Path.__delitem__", "Path.__iadd__",
+               "Path.line", "Path.closed", "Path.reverse", "Path.reify", "Subpath.reverse", "Subpath._reverse_segments",
+               "Subpath.__imul__", "Shape._calc_lengths", "Shape.length"],
+        props=["C15", "C16"], kind="S", timeout_ms=60000,
+        note="representative path Move, Line, Line with a filled cache; the edit is generic")
+def _(E, how):
+    from .parser import mk_prefix
+    p, _state, _kinds = mk_prefix(E, "MLL")
+    total = E.call(p, "length")                        # fills the cache
+    E.assume(total > 0)
+    if how == "append":
+        E.call(p, "append", mk_seg(E, "Line", "n", start=False))
+    elif how == "insert":
+        E.call(p, "insert", 1, mk_seg(E, "Line", "n"))
+    elif how == "extend":
+        E.call(p, "extend", E.list([mk_seg(E, "Line", "n", start=False)]))
+    elif how == "setitem":
+        E.call(p, "__setitem__", 1, mk_seg(E, "Line", "n", start=False))
+    elif how == "delitem":
+        E.call(p, "__delitem__", 2)
+    elif how == "iadd":
+        E.call(p, "__iadd__", mk_seg(E, "Line", "n", start=False))
+    elif how == "line":
+        E.call(p, "line", mk_point(E, "n"))
+    elif how == "closed":
+        E.call(p, "closed")
+    elif how == "reverse":
+        E.call(p, "reverse")
+    elif how == "reify":
+        E.set(p, "transform", mk_matrix(E, "T"))
+        E.call(p, "reify")
+    elif how == "subpath_reverse":
+        E.call(E.call(p, "subpath", 0), "reverse")
+    else:
+        # a fixed non-isometric map with a symbolic translation: it changes every length, which is all that matters here
+        e, f = E.reals("Te Tf", NUM)
+        E.call(E.call(p, "subpath", 0), "__imul__", E.new("Matrix", a=2, b=0, c=0, d=3, e=e, f=f))
+    segs = E.items(E.get(p, "_segments"))
+    parts = [E.call(s, "length") for s in segs]
+    acc = 0
+    for x in parts:
+        acc = acc + x
+    cached = E.get(p, "_length")
+    if E.is_none(cached):
+        E.ensure("cache_invalidated_or_consistent", True)
+    else:
+        fr = E.items(E.get(p, "_lengths"))
+        E.ensure("cache_invalidated_or_consistent",
+                 And(cached == acc, len(fr) == len(parts), *[f * acc == x for f, x in zip(fr, parts)]))
+    E.ensure("length_after_the_edit_is_the_sum_of_the_present_segments", E.call(p, "length") == acc)
+
+
+@ob("C15/Shape.point/walk_ignores_an_invalidated_cache", funcs=["Shape.point", "Shape._calc_lengths",
+                                                                  "PathSegment.point", "Linear.npoint"],
+    props=["C15"], kind="S", note="Move, Line, Line; _length is None (invalid), _lengths holds arbitrary stale fractions",
+    timeout_ms=60000)
+def _(E):
+    p = mk_path(E, kinds=("Move", "Line", "Line"))
+    segs = E.items(E.get(p, "_segments"))
+    L = [E.call(s, "length") for s in segs]
+    E.assume(And(L[1] > 0, L[2] > 0))
+    stale = E.reals("f0 f1 f2", lambda r: r.uniform(0, 1))
+    E.assume(And(*[And(f >= 0, f <= 1) for f in stale]))
+    E.set(p, "_length", None)
+    E.set(p, "_lengths", E.list(list(stale)))
+    t = E.real("t", lambda r: r.uniform(0.01, 0.99))
+    E.assume(And(t > 0, t < 1))
+    q = E.call(p, "point", t)
+    total = L[1] + L[2]
+    c1 = L[1] / total
+    P1, P2 = ctrl(segs[1], "Line"), ctrl(segs[2], "Line")
+    E.ensure("point_on_the_segment_whose_interval_contains_t",
+             Or(And(t <= c1, pt_eq(q, bern1(P1, t / c1))), And(t >= c1, pt_eq(q, bern1(P2, (t - c1) / (1 - c1))))))
